@@ -854,13 +854,30 @@ func init() {
 func init() {
 	externals["github.com/mitchellh/hashstructure.Hash"] = func(fr *frame, a []value) value {
 		stubHit(fr, "hashstructure.Hash(structural FNV)")
-		var sb strings.Builder
+		var sb hashBuf
 		serialise(&sb, a[0], 0)
+		sb.flush()
 		var h uint64 = 14695981039346656037
-		s := sb.String()
-		for k := 0; k < len(s); k++ {
-			h ^= uint64(s[k])
-			h *= 1099511628211
+		var ht *Term // non-nil once a symbolic byte has been folded in
+		for _, c := range sb.chunks {
+			if c.t != nil {
+				if ht == nil {
+					ht = bvConst(64, h)
+				}
+				ht = mkBin(OpMul, mkBin(OpXor, ht, mkZExt(c.t, 64)), bvConst(64, 1099511628211))
+				continue
+			}
+			for k := 0; k < len(c.s); k++ {
+				if ht != nil {
+					ht = mkBin(OpMul, mkBin(OpXor, ht, bvConst(64, uint64(c.s[k]))), bvConst(64, 1099511628211))
+				} else {
+					h ^= uint64(c.s[k])
+					h *= 1099511628211
+				}
+			}
+		}
+		if ht != nil {
+			return tuple{mkSym(ht, types.Uint64), iface{}}
 		}
 		if h == 0 {
 			h = 1
@@ -869,13 +886,49 @@ func init() {
 	}
 }
 
-func serialise(sb *strings.Builder, v value, depth int) {
+// hashBuf collects the serialised content: concrete text and symbolic bytes.
+type hashChunk struct {
+	s string
+	t *Term // an 8-bit term
+}
+type hashBuf struct {
+	strings.Builder
+	chunks []hashChunk
+}
+
+func (b *hashBuf) flush() {
+	if b.Len() > 0 {
+		b.chunks = append(b.chunks, hashChunk{s: b.String()})
+		b.Reset()
+	}
+}
+func (b *hashBuf) symByte(t *Term) {
+	b.flush()
+	b.chunks = append(b.chunks, hashChunk{t: t})
+}
+
+func serialise(sb *hashBuf, v value, depth int) {
 	if depth > 60 {
 		panic(unsupported{"hash: structure too deep"})
 	}
 	switch v := v.(type) {
-	case sym, sstr:
-		panic(unsupported{"hashstructure.Hash of symbolic content"})
+	case sym:
+		t := v.t
+		if t.w == 0 {
+			t = mkIte(t, bvConst(8, 1), bvConst(8, 0))
+		}
+		sb.WriteString("y")
+		for lo := uint8(0); lo < t.w; lo += 8 {
+			sb.symByte(mkExtract(t, lo+7, lo))
+		}
+		sb.WriteString(";")
+	case sstr:
+		n := strLen(v)
+		fmt.Fprintf(sb, "q%d:", n)
+		for k := 0; k < n; k++ {
+			sb.symByte(toTerm(strByte(v, k)))
+		}
+		sb.WriteString(";")
 	case nil:
 		sb.WriteString("nil;")
 	case *value:
@@ -920,16 +973,19 @@ func serialise(sb *strings.Builder, v value, depth int) {
 			if e.deleted {
 				continue
 			}
-			var eb strings.Builder
+			var eb hashBuf
 			serialise(&eb, e.key, depth+1)
 			eb.WriteString("=>")
 			serialise(&eb, e.val, depth+1)
+			if len(eb.chunks) > 0 {
+				panic(unsupported{"hashstructure.Hash of a map with symbolic content"})
+			}
 			parts = append(parts, eb.String())
 		}
 		sort.Strings(parts)
 		sb.WriteString("m{" + strings.Join(parts, ",") + "}")
 	case string:
-		fmt.Fprintf(sb, "%q;", v)
+		fmt.Fprintf(sb, "q%d:%s;", len(v), v)
 	case *ssa.Function, *closure, *chanv, unsafePtr:
 		sb.WriteString("ref;")
 	default:
